@@ -262,6 +262,43 @@ impl Prop for C11 {
                 sink(Case::new("straddle", format!("1 {}°c", "k".repeat(t.saturating_sub(2)))));
             }
         }
+        // (0c) power towers: two-digit literals only, but the power of the *unit* they build runs
+        // through every digit count up to the machine-word limit and beyond it. The value stays 1
+        // (or 1/1), so nothing grows except the unit's power.
+        {
+            const P: [&str; 7] = ["3", "10", "22", "47", "99", "-10", "-99"];
+            let bases: &[&str] = tier.pick(&["1 m", "1 / 1 s"][..], &["1 m", "1 / 1 s", "1 km^2", "1 N*m^-3"][..]);
+            for base in bases {
+                let mut idx: Vec<usize> = vec![0];
+                loop {
+                    let mut q = format!("({base})");
+                    for i in &idx {
+                        q = format!("({q} ^ {})", P[*i]);
+                    }
+                    sink(Case::new("power-tower", q));
+                    let mut i = idx.len();
+                    let mut carry = true;
+                    while i > 0 && carry {
+                        i -= 1;
+                        idx[i] += 1;
+                        if idx[i] < P.len() {
+                            carry = false;
+                        } else {
+                            idx[i] = 0;
+                        }
+                    }
+                    if carry {
+                        if idx.len() == tier.pick(5, 6) {
+                            break;
+                        }
+                        idx.push(0);
+                        for x in idx.iter_mut() {
+                            *x = 0;
+                        }
+                    }
+                }
+            }
+        }
         // (a) token soups
         let nmax = tier.pick(3, 4);
         for n in 1..=nmax {
@@ -449,8 +486,11 @@ impl Prop for C11 {
                     }
                 }
             }
-            if let Err(r) = in_domain(&t) {
-                return Verdict::DontCare(r);
+            // (the towers of family "power-tower" raise the value one, which does not grow)
+            if case.fam != "power-tower" {
+                if let Err(r) = in_domain(&t) {
+                    return Verdict::DontCare(r);
+                }
             }
         }
         let h = match robust(env.db(), s) {
@@ -493,6 +533,6 @@ impl Prop for C11 {
         fw::pass(h & 0xff != 0, h)
     }
     fn bounds(&self, tier: Tier) -> serde_json::Value {
-        serde_json::json!({"token_sequence_length": tier.pick(3, 4), "token_alphabet": TOKENS.len(), "unicode_length": tier.pick(4, 5), "unicode_alphabet": UNI.len(), "seeds": SEEDS.len(), "edit_distance": tier.pick(1, 2), "profiles": ["release", "verif-debug"]})
+        serde_json::json!({"token_sequence_length": tier.pick(3, 4), "token_alphabet": TOKENS.len(), "unicode_length": tier.pick(4, 5), "unicode_alphabet": UNI.len(), "seeds": SEEDS.len(), "edit_distance": tier.pick(1, 2), "power_tower_depth": tier.pick(5, 6),"profiles": ["release", "verif-debug"]})
     }
 }
